@@ -41,7 +41,7 @@ def registry():
     return reg
 
 
-def run_check(pid, files, tier="quick", seed=0, quiet=False, out=sys.stdout):
+def run_check(pid, files, tier="quick", seed=0, quiet=False, out=sys.stdout, write=True, extra=None):
     """Run one property check on a source provider. Returns (exit code, Report)."""
     rep = Report(pid, tier, seed, quiet=quiet)
     reg = registry()
@@ -60,7 +60,9 @@ def run_check(pid, files, tier="quick", seed=0, quiet=False, out=sys.stdout):
             rep.stat("call_sites_resolved", sum(1 for c in ctx.G.sites if c.targets))
         if not rep.obligations:
             raise AnalysisError("check produced no obligations (vacuous)")
-        return rep.finish(out), rep
+        if extra is not None:
+            extra(ctx, rep)
+        return rep.finish(out, write=write), rep
     except AnalysisError as e:
         print("ANALYSIS-ERROR property=%s %s" % (pid, e), file=out)
         return 2, rep
@@ -87,14 +89,14 @@ def main(argv=None):
     except AnalysisError as e:
         print("ANALYSIS-ERROR property=%s %s" % (args.pid, e))
         return 2
-    code, rep = run_check(args.pid, files, args.tier, seed)
-    if code == 0 and args.tier == "thorough":
-        try:
-            from . import selftest
-        except ImportError:
-            selftest = None
-        if selftest is not None:
+    extra = None
+    if args.tier == "thorough":
+        from . import selftest
+
+        def extra(ctx, rep):
             selftest.run_for(args.pid, files, rep, seed)
+
+    code, rep = run_check(args.pid, files, args.tier, seed, extra=extra)
     return code
 
 
